@@ -91,9 +91,20 @@ pub fn run(ctx: &Ctx, reg: &Registry) -> i32 {
                 let case = gen_case(reg, s, ctx.seed.wrapping_add(202), i, false);
                 note_case(&mut acc, s, &case);
                 run_both(&mut acc, reg, s, &case);
+                // duplicate object members and aliased map keys (second value source only). The model processes
+                // repeated keys in enumeration order like any other entry: every entry is examined, every fault
+                // reported once; the compared aspects (reports, examined nodes) do not depend on which value wins.
+                if i % 3 == 0 {
+                    let case = gen_case_h(reg, s, ctx.seed.wrapping_add(2021), i, Host { dup: true, nonfinite: false, noncanon: false, alias: true });
+                    if !unique_keys(&case.payload) || case.faults.contains(&"aliased-map-key") {
+                        note_case(&mut acc, s, &case);
+                        run_both(&mut acc, reg, s, &case);
+                        acc.count("payloads_with_repeated_or_aliased_keys");
+                    }
+                }
                 // non-finite floats (second value source only): the only faults a serde_json::Value target can have
                 if i % 4 == 0 {
-                    let case = gen_case_h(reg, s, ctx.seed.wrapping_add(2020), i, Host { dup: false, nonfinite: true, noncanon: false });
+                    let case = gen_case_h(reg, s, ctx.seed.wrapping_add(2020), i, Host { dup: false, nonfinite: true, noncanon: false, alias: false });
                     if !case.payload.json_representable() {
                         note_case(&mut acc, s, &case);
                         run_both(&mut acc, reg, s, &case);
